@@ -111,6 +111,27 @@ class CorruptSuite:
                         break
                 if bad:
                     break
+                # after a forced compaction of everything: still an error or the right answer
+                if kindf == "table" and len(p) >= 8:
+                    openable, level, gets2, scan2 = p[4] == "1", p[5], p[6].split(","), p[7]
+                    self.stats["compacted_after_corruption"] = self.stats.get("compacted_after_corruption", 0) + 1
+                    wrong = None
+                    for k, g in zip(keys, gets2):
+                        exp = ("v" + m[k]) if k in m else "nf"
+                        if not g.startswith("err") and g != exp:
+                            wrong = "get(%s) returned %s instead of %s or an error" % (k.hex(), lib.trunc(g, 80), lib.trunc(exp, 80))
+                            break
+                    if not wrong and scan2 != final and not scan2.startswith("err"):
+                        wrong = "the scan returned %s instead of %s or an error" % (lib.trunc(scan2, 200), lib.trunc(final, 200))
+                    if wrong:
+                        if openable or level not in ("0",):
+                            # KNOWN FINDING: block / lazily opened table errors are swallowed by the
+                            # iterators a compaction merges
+                            self.known_hits.append(("table-block-error-swallowed-by-iterators", cid, where))
+                        else:
+                            bad = ("corruption %s (a level-0 table that cannot even be opened): after compact_range %s"
+                                   % (where, wrong))
+                            break
                 if scan != final and not scan.startswith("err"):
                     if kindf == "table":
                         # KNOWN FINDING table-block-error-swallowed-by-iterators (gets were checked above)
